@@ -27,7 +27,7 @@ End CtyInd.
 Lemma ident_char_plain c : ident_char c = true -> plain c.
 Proof. unfold plain. destruct c as [[] [] [] [] [] [] [] []]; vm_compute; intros; congruence. Qed.
 Lemma is_ident_ident n : is_ident n = true -> ident n.
-Proof. unfold is_ident, ident. destruct n as [|c r]; [discriminate|]. intros H. apply andb_true_iff in H as [_ H].
+Proof. unfold is_ident, ident. destruct n as [|c r]; [discriminate|]. intros H. apply andb_true_iff in H as [H _]. apply andb_true_iff in H as [_ H].
   split; [discriminate|]. rewrite forallb_forall in H. apply Forall_forall. intros x Hx. apply ident_char_plain. auto. Qed.
 
 Lemma one_of_in s l : one_of s l = true -> exists x, In x l /\ s = L x.
